@@ -37,7 +37,10 @@ def run(chk: Check, tier: str):
         cases, index = [], {}
         hruns = []
         for pi, (prog, inputs) in enumerate(progs):
-            hr = halmos_run(prog)
+            # a third of the programs each: the branching solver answers normally / `unknown` always / `unknown`
+            # for a seeded half of its queries (what an expired --solver-timeout-branching looks like)
+            inject = [(), ("--verif-unknown", "all"), ("--verif-unknown", str(pi))][pi % 3]
+            hr = halmos_run(prog, *inject)
             hruns.append(hr)
             seen = set()
             for inp in inputs:
@@ -120,7 +123,8 @@ def run(chk: Check, tier: str):
         "one caller program per forge-std vm.assert* signature (selectors computed by the harness with keccak) at call "
         "depth 1-3, operands from calldata (word types: sign/zero boundaries; arrays of length 0-3; bytes/strings of length "
         "0-33), plus vm.assume programs; each input is executed by TLC on Evm.tla + Cheats.tla in stop and continue mode "
-        "and compared with the halmos paths covering it; non-trivial = (program, input) pairs with a covering path"
+        "and compared with the halmos paths covering it; two thirds of the programs run with the branching solver answering "
+        "`unknown` (always / seeded half of the queries), which must not lose the failing branch; non-trivial = (program, input) pairs with a covering path"
     )
 
 
